@@ -30,7 +30,7 @@ import (
 var wantedFuncs = []string{
 	"tokAllowedChar", "resCharSigFlag", "multipleValsOk",
 	"HdrFlags.Test", "HdrFlags.Set", "HdrFlags.Clear", "HdrFlags.Reset",
-	"PField.Empty", "SIPMethod.Name", "hexDigToI",
+	"PField.Empty", "SIPMethod.Name", "hexDigToI", "skipCRLF",
 	"PCallIDBody.Parsed", "PCallIDBody.Empty", "PCallIDBody.Pending",
 	"PUIntBody.Parsed", "PUIntBody.Empty", "PUIntBody.Pending",
 	"PCSeqBody.Parsed", "PCSeqBody.Empty", "PCSeqBody.Pending",
@@ -56,10 +56,17 @@ type ftr struct {
 	res    []string // named results
 	resT   []string
 	nores  bool // no result: returns the (pointer) receiver value
+	mon    bool // the body reads a slice element: results are `Option` (none = index out of range, Go would panic)
+	tmp    int
 	logs   map[string]bool
 }
 
 func leanType(t types.Type) string {
+	if sl, ok := t.Underlying().(*types.Slice); ok {
+		if eb, ok := sl.Elem().Underlying().(*types.Basic); ok && eb.Kind() == types.Uint8 {
+			return "(Array UInt8)" // a []byte that is only READ (len, index)
+		}
+	}
 	b, ok := t.Underlying().(*types.Basic)
 	if !ok {
 		bail("type %s", t)
@@ -156,90 +163,163 @@ func (f *ftr) expr(e ast.Expr) string {
 		}
 		bail("unary %s", x.Op)
 	case *ast.BinaryExpr:
-		a, b := f.expr(x.X), f.expr(x.Y)
-		lt := leanType(f.typeOf(x.X))
-		op := ""
-		switch x.Op {
-		case token.ADD:
-			op = "+"
-		case token.SUB:
-			op = "-"
-		case token.MUL:
-			op = "*"
-		case token.QUO, token.REM:
-			bail("division")
-		case token.AND:
-			op = "&&&"
-		case token.OR:
-			op = "|||"
-		case token.XOR:
-			op = "^^^"
-		case token.AND_NOT:
-			if lt == "Int" {
-				bail("&^ on int")
-			}
-			return "(" + a + " &&& ~~~" + b + ")"
-		case token.SHL, token.SHR:
-			if lt == "Int" {
-				bail("shift of int")
-			}
-			cnt := b
-			ct := leanType(f.typeOf(x.Y))
-			if ct == "Int" {
-				cnt = "(Int.toNat " + b + ")"
-			} else {
-				cnt = "(" + b + ").toNat"
-			}
-			fn := "Sipsp.GoSem.shl" + strings.TrimPrefix(lt, "UInt")
-			if x.Op == token.SHR {
-				fn = "Sipsp.GoSem.shr" + strings.TrimPrefix(lt, "UInt")
-			}
-			return "(" + fn + " " + a + " " + cnt + ")"
-		case token.LAND:
-			op = "&&"
-		case token.LOR:
-			op = "||"
-		case token.EQL:
-			op = "=="
-		case token.NEQ:
-			op = "!="
-		case token.LSS:
-			return "(decide (" + a + " < " + b + "))"
-		case token.LEQ:
-			return "(decide (" + a + " ≤ " + b + "))"
-		case token.GTR:
-			return "(decide (" + a + " > " + b + "))"
-		case token.GEQ:
-			return "(decide (" + a + " ≥ " + b + "))"
-		default:
-			bail("binary %s", x.Op)
-		}
-		if lt == "Int" && (op == "&&&" || op == "|||" || op == "^^^") {
-			bail("bit operation on int")
-		}
-		return "(" + a + " " + op + " " + b + ")"
+		return f.binop(x, f.expr(x.X), f.expr(x.Y))
 	case *ast.CallExpr:
-		// conversion T(x) between integer types
+		if id, ok := x.Fun.(*ast.Ident); ok && id.Name == "len" && len(x.Args) == 1 {
+			if _, isB := f.info.Uses[id].(*types.Builtin); isB {
+				if a, ok := x.Args[0].(*ast.Ident); ok && strings.HasPrefix(leanType(f.typeOf(a)), "(Array") {
+					return "(Int.ofNat v_" + a.Name + ".size)"
+				}
+			}
+			bail("len of a non-parameter")
+		}
 		if tv, ok := f.info.Types[x.Fun]; ok && tv.IsType() && len(x.Args) == 1 {
-			from, to := leanType(f.typeOf(x.Args[0])), leanType(tv.Type)
-			a := f.expr(x.Args[0])
-			if from == to {
-				return a
-			}
-			if from == "Bool" || to == "Bool" {
-				bail("bool conversion")
-			}
-			if from == "Int" {
-				return "(Sipsp.GoSem.ofInt" + strings.TrimPrefix(to, "UInt") + " " + a + ")"
-			}
-			if to == "Int" {
-				return "(Int.ofNat (" + a + ").toNat)"
-			}
-			return "(" + a + ".to" + to + ")"
+			return f.conv(x, f.expr(x.Args[0]))
 		}
 		bail("call")
 	}
 	bail("expression %T", e)
+	return ""
+}
+
+// binop: the Lean text of `a op b` for the Go binary expression x (operands already translated)
+func (f *ftr) binop(x *ast.BinaryExpr, a, b string) string {
+	lt := leanType(f.typeOf(x.X))
+	op := ""
+	switch x.Op {
+	case token.ADD:
+		op = "+"
+	case token.SUB:
+		op = "-"
+	case token.MUL:
+		op = "*"
+	case token.QUO, token.REM:
+		bail("division")
+	case token.AND:
+		op = "&&&"
+	case token.OR:
+		op = "|||"
+	case token.XOR:
+		op = "^^^"
+	case token.AND_NOT:
+		if lt == "Int" {
+			bail("&^ on int")
+		}
+		return "(" + a + " &&& ~~~" + b + ")"
+	case token.SHL, token.SHR:
+		if lt == "Int" {
+			bail("shift of int")
+		}
+		cnt := b
+		ct := leanType(f.typeOf(x.Y))
+		if ct == "Int" {
+			cnt = "(Int.toNat " + b + ")"
+		} else {
+			cnt = "(" + b + ").toNat"
+		}
+		fn := "Sipsp.GoSem.shl" + strings.TrimPrefix(lt, "UInt")
+		if x.Op == token.SHR {
+			fn = "Sipsp.GoSem.shr" + strings.TrimPrefix(lt, "UInt")
+		}
+		return "(" + fn + " " + a + " " + cnt + ")"
+	case token.LAND:
+		op = "&&"
+	case token.LOR:
+		op = "||"
+	case token.EQL:
+		op = "=="
+	case token.NEQ:
+		op = "!="
+	case token.LSS:
+		return "(decide (" + a + " < " + b + "))"
+	case token.LEQ:
+		return "(decide (" + a + " ≤ " + b + "))"
+	case token.GTR:
+		return "(decide (" + a + " > " + b + "))"
+	case token.GEQ:
+		return "(decide (" + a + " ≥ " + b + "))"
+	default:
+		bail("binary %s", x.Op)
+	}
+	if lt == "Int" && (op == "&&&" || op == "|||" || op == "^^^") {
+		bail("bit operation on int")
+	}
+	return "(" + a + " " + op + " " + b + ")"
+}
+
+// conv: the Lean text of the integer conversion T(a) (a already translated)
+func (f *ftr) conv(x *ast.CallExpr, a string) string {
+	tv := f.info.Types[x.Fun]
+	from, to := leanType(f.typeOf(x.Args[0])), leanType(tv.Type)
+	if from == to {
+		return a
+	}
+	if from == "Bool" || to == "Bool" {
+		bail("bool conversion")
+	}
+	if from == "Int" {
+		return "(Sipsp.GoSem.ofInt" + strings.TrimPrefix(to, "UInt") + " " + a + ")"
+	}
+	if to == "Int" {
+		return "(Int.ofNat (" + a + ").toNat)"
+	}
+	return "(" + a + ".to" + to + ")"
+}
+
+func hasIndex(n ast.Node) bool {
+	found := false
+	ast.Inspect(n, func(x ast.Node) bool {
+		if _, ok := x.(*ast.IndexExpr); ok {
+			found = true
+		}
+		return !found
+	})
+	return found
+}
+
+func (f *ftr) fresh(p string) string {
+	f.tmp++
+	return fmt.Sprintf("%s__%d", p, f.tmp)
+}
+
+// mexpr: the expression as a Lean term of type `Option τ` (only used for functions that index a slice): `none` exactly when
+// Go would panic with an index out of range; `&&` / `||` keep their short-circuit evaluation.
+func (f *ftr) mexpr(e ast.Expr) string {
+	if !hasIndex(e) {
+		return "(some " + f.expr(e) + ")"
+	}
+	switch x := e.(type) {
+	case *ast.ParenExpr:
+		return f.mexpr(x.X)
+	case *ast.IndexExpr:
+		id, ok := x.X.(*ast.Ident)
+		if !ok || !strings.HasPrefix(leanType(f.typeOf(id)), "(Array") {
+			bail("index of a non-parameter")
+		}
+		i := f.fresh("i")
+		return "(Option.bind " + f.mexpr(x.Index) + " (fun " + i + " => Sipsp.GoSem.idx? v_" + id.Name + " " + i + "))"
+	case *ast.UnaryExpr:
+		if x.Op != token.NOT {
+			bail("unary %s over an index", x.Op)
+		}
+		a := f.fresh("a")
+		return "(Option.bind " + f.mexpr(x.X) + " (fun " + a + " => some (!" + a + ")))"
+	case *ast.BinaryExpr:
+		a, b := f.fresh("a"), f.fresh("b")
+		switch x.Op {
+		case token.LAND:
+			return "(Option.bind " + f.mexpr(x.X) + " (fun " + a + " => if " + a + " then " + f.mexpr(x.Y) + " else some false))"
+		case token.LOR:
+			return "(Option.bind " + f.mexpr(x.X) + " (fun " + a + " => if " + a + " then some true else " + f.mexpr(x.Y) + "))"
+		}
+		return "(Option.bind " + f.mexpr(x.X) + " (fun " + a + " => Option.bind " + f.mexpr(x.Y) + " (fun " + b + " => some " + f.binop(x, a, b) + ")))"
+	case *ast.CallExpr:
+		if tv, ok := f.info.Types[x.Fun]; ok && tv.IsType() && len(x.Args) == 1 {
+			a := f.fresh("a")
+			return "(Option.bind " + f.mexpr(x.Args[0]) + " (fun " + a + " => some " + f.conv(x, a) + "))"
+		}
+	}
+	bail("expression %T over an index", e)
 	return ""
 }
 
@@ -263,6 +343,9 @@ func (f *ftr) stmts(ss []ast.Stmt, k string, ind string) string {
 	if len(ss) == 0 {
 		if k == "" {
 			if f.nores || len(f.res) > 0 {
+				if f.mon {
+					return "(some " + f.retVal() + ")"
+				}
 				return f.retVal()
 			}
 			bail("missing return")
@@ -270,6 +353,55 @@ func (f *ftr) stmts(ss []ast.Stmt, k string, ind string) string {
 		return k
 	}
 	s, rest := ss[0], ss[1:]
+	if f.mon {
+		switch x := s.(type) {
+		case *ast.ReturnStmt:
+			if len(x.Results) == 0 {
+				return "(some " + f.retVal() + ")"
+			}
+			// bind the results left to right, then build the tuple
+			var names []string
+			for range x.Results {
+				names = append(names, f.fresh("r"))
+			}
+			out := "some (" + strings.Join(names, ", ") + ")"
+			if len(names) == 1 {
+				out = "some " + names[0]
+			}
+			for i := len(x.Results) - 1; i >= 0; i-- {
+				out = "Option.bind " + f.mexpr(x.Results[i]) + " (fun " + names[i] + " => " + out + ")"
+			}
+			return "(" + out + ")"
+		case *ast.AssignStmt:
+			if len(x.Lhs) == 1 && len(x.Rhs) == 1 && (x.Tok == token.ASSIGN || x.Tok == token.DEFINE) {
+				if l, ok := x.Lhs[0].(*ast.Ident); ok {
+					return "(Option.bind " + f.mexpr(x.Rhs[0]) + " (fun v_" + l.Name + " =>\n" + ind + f.stmts(rest, k, ind) + "))"
+				}
+			}
+			bail("assignment in a function that indexes a slice")
+		case *ast.IfStmt:
+			if x.Init != nil {
+				bail("if with init")
+			}
+			kk := f.stmts(rest, k, ind+"  ")
+			thenB := f.stmts(x.Body.List, kk, ind+"  ")
+			elseB := kk
+			if x.Else != nil {
+				elseB = f.stmts([]ast.Stmt{x.Else}, kk, ind+"  ")
+			}
+			c := f.fresh("c")
+			return "(Option.bind " + f.mexpr(x.Cond) + " (fun " + c + " =>\n" + ind + "  if " + c + " then\n" + ind + "    " + thenB + "\n" + ind + "  else\n" + ind + "    " + elseB + "))"
+		case *ast.BlockStmt:
+			return f.stmts(append(append([]ast.Stmt{}, x.List...), rest...), k, ind)
+		case *ast.ExprStmt:
+			if c, ok := x.X.(*ast.CallExpr); ok {
+				if id, ok := c.Fun.(*ast.Ident); ok && f.logs[id.Name] {
+					return f.stmts(rest, k, ind)
+				}
+			}
+		}
+		bail("statement %T in a function that indexes a slice", s)
+	}
 	switch x := s.(type) {
 	case *ast.ReturnStmt:
 		if len(x.Results) == 0 {
@@ -501,6 +633,10 @@ func emitFuncs(files []*ast.File, info *types.Info, pkg *types.Package) (string,
 				f.nores = true
 				rts = []string{leanType(info.Defs[fd.Recv.List[0].Names[0]].Type().(*types.Pointer).Elem())}
 			}
+			f.mon = hasIndex(fd.Body)
+			if f.mon && (len(f.res) > 0 || f.nores) {
+				bail("named results / pointer receiver in a function that indexes a slice")
+			}
 			body := ""
 			for i, r := range f.res {
 				z := "(0 : " + f.resT[i] + ")"
@@ -514,7 +650,11 @@ func emitFuncs(files []*ast.File, info *types.Info, pkg *types.Package) (string,
 				params = append(append([]string{}, f.fieldL...), params...)
 			}
 			lname := strings.ReplaceAll(name, ".", "_")
-			return fmt.Sprintf("def %s %s : %s :=\n  %s\n", lname, strings.Join(params, " "), strings.Join(rts, " × "), body), ""
+			rt := strings.Join(rts, " × ")
+			if f.mon {
+				rt = "Option (" + rt + ")"
+			}
+			return fmt.Sprintf("def %s %s : %s :=\n  %s\n", lname, strings.Join(params, " "), rt, body), ""
 		}()
 		if err != "" {
 			failed[name] = err
